@@ -100,6 +100,9 @@ func (m *Live) End(c *vnet.Cluster) {
 	}
 	gst := c.LastFault()
 	T := int64(c.Cfg.TPB)
+	if c.Cfg.MaxTPB > c.Cfg.TPB {
+		T = int64(c.Cfg.MaxTPB) // dynamic block time: an idle round legitimately lasts up to the maximum block time
+	}
 	exp := m.v0 + m.Silent
 	if exp > 20 {
 		exp = 20
@@ -127,7 +130,7 @@ func (m *Live) End(c *vnet.Cluster) {
 				m.inc("post-gst-ledger-catchups")
 			}
 			if gap := a.Clock - last; gap > B {
-				m.fail(c, "progress-bound-exceeded", "n%d needed %s of virtual time after %s to get height %d (bound %s = 16*2^(%d+%d)*%s, GST=%s)", n.ID, time.Duration(gap), time.Duration(last), a.Height, time.Duration(B), m.v0, m.Silent, c.Cfg.TPB, time.Duration(gst))
+				m.fail(c, "progress-bound-exceeded", "n%d needed %s of virtual time after %s to get height %d (bound %s = 16*2^(%d+%d)*%s, GST=%s)", n.ID, time.Duration(gap), time.Duration(last), a.Height, time.Duration(B), m.v0, m.Silent, time.Duration(T), time.Duration(gst))
 			}
 			if m.FromStart && !a.Synced && int(a.View) > m.Silent {
 				m.fail(c, "view-above-silent-count", "n%d decided height %d in view %d with %d validator(s) silent from the start", n.ID, a.Height, a.View, m.Silent)
